@@ -15,7 +15,6 @@ from verifkit.core import *
 
 PID = "C14"
 FILES = HARNESS_BASE + ["lab_*.go", "src_*.go", "vir_builders.go", "c09_*.go", "c14_*.go"]
-PROPOSED = os.path.join(WORK, "proposed_findings_C14.json")
 CORPUS = os.path.join(VERIF, "corpus", "C14.tsv")
 
 
@@ -118,14 +117,6 @@ class Runner:
         self.classes = collections.Counter()
         self.pending, self.disagree = [], []
         self.shrink_deadline = time.time() + 150
-        if os.path.exists(PROPOSED):
-            try:
-                # a proposed entry refines the merged entry of the same id until it is merged again
-                for f in json.load(open(PROPOSED)).get("findings", []):
-                    if f.get("property") == PID:
-                        c.known[:] = [k for k in c.known if k["id"] != f["id"]] + [f]
-            except Exception as e:
-                c.oblige("proposed findings file is readable", False, str(e))
 
     def stream(self, name, **kw):
         c, st = self.c, self.stats
